@@ -2,7 +2,7 @@
 import ast
 import builtins
 
-from sa.astutil import (norm, guards_of, walk_no_nested, always_exits, exit_kind, parent, preceding_stmts,
+from sa.astutil import (enclosing, norm, guards_of, walk_no_nested, always_exits, exit_kind, parent, preceding_stmts,
                         names_in, dotted)
 from sa.c11_util import SrcBuilder, Sym, Paths, known_atoms, const_truth
 from sa.errors import AnalysisError
@@ -2110,7 +2110,43 @@ def rule_metaname(repo):
     return r
 
 
-RULES = [rule_template, rule_watch, rule_once, rule_cover, rule_siblings, rule_acyclic, rule_metaname]
+def rule_msg(repo):
+    """The members of an SCC include generated net blocks, which have no host component entry: building the rejection message
+    must not look their host up unguarded (a KeyError would mask the UpblkCyclicError)."""
+    r = RuleResult('R-C11-msg', "building the update_once rejection message cannot itself fail for SCCs that contain generated net blocks")
+    for rel, q in ((DYN, 'DynamicSchedulePass.schedule_intra_cycle'), (MAMBA, 'Mamba2020Pass.schedule_intra_cycle.compile_scc')):
+        m = repo.mod(rel)
+        f = m.get_func(q)
+        raises = [x for x in ast.walk(f) if isinstance(x, ast.Raise) and x.exc is not None and
+                  any('onces' in names_in(g.test) for g in guards_of(x))]
+        if len(raises) != 1:
+            raise AnalysisError(f"{q}: update_once rejection not found")
+        look = [c for c in ast.walk(raises[0]) if (isinstance(c, ast.Call) and norm(c.func).endswith('get_update_block_host_component')) or
+                (isinstance(c, ast.Subscript) and norm(c.value).endswith('all_upblk_hostobj'))]
+        bad = []
+        for c in look:
+            key = norm(c.args[0]) if isinstance(c, ast.Call) else norm(c.slice)
+            cur, guarded = c, False
+            while cur is not None and cur is not raises[0]:
+                p_ = getattr(cur, '_parent', None)
+                if isinstance(p_, ast.IfExp) and (cur is p_.body) and f"{key} in " in norm(p_.test) and 'all_upblk_hostobj' in norm(p_.test):
+                    guarded = True
+                cur = p_
+            if enclosing(raises[0], (ast.Try,)) is not None:
+                guarded = guarded or False
+            if not guarded:
+                bad.append(c)
+        cons = "host lookup of SCC members inside the rejection message"
+        if bad:
+            r.bad(m, q, cons, f"`{norm(bad[0])}` is evaluated for every member of the SCC, including generated net blocks that have no host "
+                  f"entry: the message construction raises KeyError and masks UpblkCyclicError", bad[0].lineno)
+        else:
+            r.ok(m, q, cons + (" (guarded by membership)" if look else " (none)"), nontrivial=bool(look))
+    r.require_floor(2)
+    return r
+
+
+RULES = [rule_template, rule_watch, rule_once, rule_cover, rule_siblings, rule_acyclic, rule_metaname, rule_msg]
 
 EXPLANATION = (
     "Static analysis of the two cyclic-capable schedulers (DynamicSchedulePass.schedule_intra_cycle, "
@@ -2154,6 +2190,7 @@ def _m(name, old, new, rule=None, file=DYN, count=1):
 
 
 MUTANTS = [
+    dict(name='once-msg-unguarded-host-lookup', file=DYN, old="repr(top._dsl.all_upblk_hostobj[y])[2:] if y in top._dsl.all_upblk_hostobj else '<generated net block>'", new="repr(top.get_update_block_host_component(y))[2:]", rule='R-C11-msg', count=1),
     dict(name='meta-block-id-not-advanced', file=MAMBA, old="    meta_id = self.meta_block_id\n    self.meta_block_id += 1\n", new="    meta_id = self.meta_block_id\n", rule='R-C11-metaname', count=1),
     dict(name='once-rejection-all', file=DYN, old="        for x in scc:\n          if x in onces:\n            raise UpblkCyclicError(\"update_once blocks", new="        if all( x in onces for x in scc ):\n          if True:\n            raise UpblkCyclicError(\"update_once blocks", rule='R-C11-once', count=1),
     # --- the loop skeleton (template)
